@@ -11,7 +11,7 @@ UNITS = ['src/kernel/resource/CpuImpl.cpp', 'src/kernel/resource/StandardLinkImp
          'src/kernel/EngineImpl.cpp', 'src/kernel/actor/ActorImpl.cpp', 'src/kernel/activity/ActivityImpl.cpp', 'src/kernel/activity/CommImpl.cpp',
          'src/kernel/activity/ExecImpl.cpp', 'src/kernel/activity/IoImpl.cpp', 'src/kernel/activity/SleepImpl.cpp', 'src/kernel/activity/MessImpl.cpp',
          'src/kernel/activity/MutexImpl.cpp', 'src/kernel/activity/SemaphoreImpl.cpp', 'src/kernel/activity/ConditionVariableImpl.cpp',
-         'src/kernel/activity/BarrierImpl.cpp']
+         'src/kernel/activity/BarrierImpl.cpp', 'src/kernel/lmm/System.cpp']
 K = 'simgrid::kernel::'
 ACT = K + 'activity::'
 RES = K + 'resource::'
@@ -160,6 +160,38 @@ def run(ctx):
                   ('actions in state %s survive the failure of their resource' % sorted(missing)) if missing else '', key='R2|cancel_actions|live states')
         ctx.require(len(rows) >= 2, 'R2', '%s: per-variable paths not recognised' % f['q'])
 
+    # the iterator cancel_actions relies on walks the enabled elements of the constraint and then the disabled ones (comms still paying their latency,
+    # suspended actions): both lists hold actions that use the resource
+    gv = [f for f in P.fns.values() if f['q'] == 'simgrid::kernel::lmm::Constraint::get_variable' and f.get('blocks')]
+    if len(gv) != 1:
+        ctx.unrecognised('R2', 'Constraint::get_variable: %d definitions' % len(gv))
+    else:
+        g = gv[0]
+        vg = A.view(g)
+        elem = ('un', '*', lib.parm_i(g, 0))
+        first, carry = set(), set()
+        for p in vg.paths():
+            if p.exit in ('noreturn', 'cut'):
+                continue
+            evs = vg.path_events(p)
+            isfirst = [e.pol for e in evs if e.kind == 'branch' and e.atom[0] == 'bin' and e.atom[1] == '==' and elem in (e.atom[2], e.atom[3]) and ('null' in repr(e.atom) or ('int', 0) in (e.atom[2], e.atom[3]))] + \
+                      [not e.pol for e in evs if e.kind == 'branch' and e.atom == ('truthy', elem)]
+            linked = [e.pol for e in evs if e.kind == 'branch' and 'enabled_element_set_hook' in repr(e.atom) and 'is_linked' in repr(e.atom)]
+            vals = set()
+            for e in evs:
+                if e.kind == 'assign' and e.lhs == elem:
+                    for t in ex.subterms(e.rhs):
+                        if t[0] == 'call' and t[1].endswith('::front'):
+                            vals.add('disabled.front' if 'disabled_element_set_' in repr(t[2]) else ('enabled.front' if 'enabled_element_set_' in repr(t[2]) else 'front?'))
+            if isfirst and isfirst[0]:
+                first |= vals
+            elif linked and linked[0]:
+                carry |= vals
+        ok_gv = {'enabled.front', 'disabled.front'} <= first and 'disabled.front' in carry
+        ctx.check(ok_gv, 'R2', 'Constraint::get_variable walks the enabled elements, then jumps to the disabled ones', where(g),
+                  'first call may start at %s; after the last enabled element it continues with %s%s' % (sorted(first), sorted(carry) or 'nothing',
+                                                                                                         '' if ok_gv else ': the disabled elements (comms in their latency phase, suspended actions) are never visited, so cancel_actions() does not fail them'),
+                  key='R2|Constraint::get_variable|both element sets')
     # ---- R3 ended actions are handled ---------------------------------------------------------------------------------------------------------
     ctx.rule('R3', 'run() handles ended actions after every sub-round and every timer batch; handle_ended_actions drains failed and done actions of every model and finishes their activities', 4)
     EI = K + 'EngineImpl'
